@@ -86,7 +86,7 @@ GEN_TAIL = "SPECIFICATION GSpec\nINVARIANT EmitHist\nCHECK_DEADLOCK FALSE\n"
 
 
 def gen_cfg(mode, maxlen=3, selseed=1, selmod=12):
-    return (base_constants() + '  GenMode = "%s"\n  MaxLen = %d\n  MenuN = 15\n  SelSeed = %d\n  SelMod = %d\n' % (mode, maxlen, selseed, selmod)
+    return (base_constants() + '  GenMode = "%s"\n  MaxLen = %d\n  MenuN = 17\n  SelSeed = %d\n  SelMod = %d\n' % (mode, maxlen, selseed, selmod)
             + GEN_TAIL)
 
 
@@ -147,6 +147,8 @@ def go_types_source(menu):
                     if '"' in txt or "\\" in txt or "`" in txt:
                         raise MachineryError("rule text not representable in a raw struct tag: " + txt)
                     parts.append('%s:"%s"' % (tn, txt))
+                    if tn != "valid":   # the aliases of harness/cmd/vh/pools.go poolsAliases (checked there against this source)
+                        parts += ['%sr%dk%d:"%s"' % (tn, r, k, txt) for r in range(1, 5) for k in range(4)]
             out.append("\t%s %s `%s`" % (f["name"], gt, " ".join(parts)))
         out.append("}")
         out.append("")
